@@ -104,7 +104,14 @@ func checkStream(c StreamCase) error {
 	if c.ToFile {
 		args = append(args, "-o", "out.txt")
 	}
-	r := cli.Run(dir, in.String(), args...)
+	// the input stream on stdin, in a file, in a gzip file or as a Nexus document (a stream with a
+	// record that is not a tree stays a Newick file)
+	extra, stdin, infiles, _ := cli.Present(cli.InModes[(len(in.String())+n)%len(cli.InModes)], in.String(), "-i")
+	for name, content := range infiles {
+		cli.Write(dir, name, content)
+	}
+	args = append(args, extra...)
+	r := cli.Run(dir, stdin, args...)
 	if r.TimedOut {
 		return fmt.Errorf("gotree %v did not end", args)
 	}
@@ -189,7 +196,7 @@ func checkStream(c StreamCase) error {
 func TestC14Cli(t *testing.T) {
 	h.Run(t, h.Spec[StreamCase]{
 		Property: "C14", Name: "cli", Quick: 1200, Thorough: 24000,
-		Rule: "`gotree matrix -m brlen|boot|none` (one matrix per tree) and `gotree brlen cut -l` on streams of 1-5 trees of different sizes and tip sets, a quarter of them with one record that is not a tree at a drawn position, a third written with -o: every tree before the broken record gets its matrix / groups (same oracles as the library checks, 12 printed decimals), nothing is printed for later ones, and the exit status is non-zero exactly when a record was broken; non-trivial = >= 2 trees",
+		Rule: "`gotree matrix -m brlen|boot|none` (one matrix per tree) and `gotree brlen cut -l` on streams of 1-5 trees of different sizes and tip sets, a quarter of them with one record that is not a tree at a drawn position, a third written with -o, the input on stdin, in a file, in a gzip file or as a Nexus document: every tree before the broken record gets its matrix / groups (same oracles as the library checks, 12 printed decimals), nothing is printed for later ones, and the exit status is non-zero exactly when a record was broken; non-trivial = >= 2 trees",
 		Gen: func(t *rapid.T, thorough bool) StreamCase {
 			o := gen.Opts{MinTips: 2, MaxTips: 10, BigTips: 40, Rooted: -1, MaxDeg: 5, Lens: gen.AnyPresence, LenVals: gen.AnyValue, Sups: gen.AnyPresence}
 			c := StreamCase{Cmd: rapid.SampledFrom([]string{"matrix", "cut"}).Draw(t, "cmd"), Metric: rapid.SampledFrom([]string{"brlen", "boot", "none"}).Draw(t, "metric"),
